@@ -300,7 +300,8 @@ def run(ck):
             # A build-time panic elsewhere in the same plan comes first (`panic`); under a LIMIT the
             # consumer may stop before the failing task's error arrives (LIMIT 0 never polls it).
             agree = (cls == "err" and "operator panicked" in outcome.get("msg", "")) or cls == "panic" \
-                or (cls == "ok" and "(limit " in plan)
+                or (cls == "ok" and "(limit " in plan) \
+                or (cls == "ok" and "not evaluable" in verdict and not outcome.get("rows"))   # (no row reached the expression)
         if not agree:
             stats["model_vs_impl_disagree"] += 1
             ck.report("corr:builder:" + verdict.split(":")[0] + "/" + cls, "plan checker says `%s`, the real executor's outcome for the %s plan is %s %s" % (
